@@ -1990,6 +1990,30 @@ def mixin_api(rng, name, mixins, rules_mode, own_iam=None, add_iam=False, transp
     return api
 
 
+def prefix_packages_api(rng, name):
+    """Target files in several packages under one version whose names are character prefixes of one another
+    (x.v1.admin / x.v1.admin_types / x.v1.adm): the root package must not depend on which one a set yields first (C10)."""
+    api = Api(name)
+    ver = "v1"
+    base = f"vp.{name}.{ver}"
+    subs = rng.choice([["admin", "admin_types"], ["admin_types", "admin"], ["adm", "admin", "admin_types"], ["core", "core_v2_types"]])
+    files = []
+    for i, sub in enumerate(subs):
+        pkg = f"{base}.{sub}"
+        f = File(f"{pkg.replace('.', '/')}/things{i}.proto", pkg, deps=list(STD_DEPS) + [x.pb.name for x in files])
+        m = f.message(f"Thing{i}")
+        m.field("name", "string")
+        if files:
+            m.field("prev", f".{files[-1].pb.package}.Thing{i - 1}")
+        f.enum(f"Kind{i}", f"KIND{i}_UNSPECIFIED", f"K{i}_A")
+        files.append(f)
+        api.add(f)
+    api.options = ["transport=grpc+rest", "autogen-snippets=false", "metadata"]
+    api.info.update(pkg=base, version=ver, ns=["vp"], name=name, host=f"{name}.googleapis.com")
+    api.tags.add("packages-that-are-character-prefixes")
+    return api
+
+
 def twin_module_api(rng, name):
     """Two proto-plus modules of one base name (a root file and a file of a sub-package, both defining a message of the same
     name) used by one service, the references interleaved with references to a third module (C03)."""
